@@ -294,6 +294,88 @@ func ruleT2(c *Ctx) []Ob {
 			}
 		}
 	}
+	// the count plausibility tests divide the remaining input by a per-element minimum: that minimum must be the table's entry
+	// for the element's wire type (bounded above by the smallest encoding, see above) - a larger "tighter" bound computed from
+	// the descriptor (always-written fields, say) refuses well-formed containers: a nil struct element is a lone STOP, an
+	// older writer sends fewer fields
+	fromLen := func(v ssa.Value) bool {
+		for d := 0; d < 8; d++ {
+			switch x := v.(type) {
+			case *ssa.Convert:
+				v = x.X
+			case *ssa.BinOp:
+				if x.Op != token.SUB {
+					return false
+				}
+				v = x.X
+			case *ssa.Call:
+				return isBuiltin(x, "len")
+			default:
+				return false
+			}
+		}
+		return false
+	}
+	var divisorOK func(v ssa.Value, d int) (bool, string)
+	divisorOK = func(v ssa.Value, d int) (bool, string) {
+		if d > 8 {
+			return false, "expression too deep"
+		}
+		switch x := v.(type) {
+		case *ssa.Const:
+			if n, ok := constInt(x); ok && n == 1 {
+				return true, ""
+			}
+			return false, "the constant " + path(x)
+		case *ssa.Convert:
+			return divisorOK(x.X, d+1)
+		case *ssa.ChangeType:
+			return divisorOK(x.X, d+1)
+		case *ssa.BinOp:
+			if x.Op == token.ADD {
+				if ok, why := divisorOK(x.X, d+1); !ok {
+					return false, why
+				}
+				return divisorOK(x.Y, d+1)
+			}
+			return false, "operator " + x.Op.String()
+		case *ssa.UnOp:
+			if x.Op == token.MUL {
+				if ia, ok := x.X.(*ssa.IndexAddr); ok {
+					if g, ok := ia.X.(*ssa.Global); ok && g.Name() == "minWireSize" {
+						if strings.HasSuffix(path(ia.Index), ".WT") {
+							return true, ""
+						}
+						return false, "minWireSize indexed with " + path(ia.Index) + " (not a wire type of the schema)"
+					}
+				}
+			}
+		case *ssa.Phi:
+			for _, e := range x.Edges {
+				if ok, why := divisorOK(e, d+1); !ok {
+					return false, why
+				}
+			}
+			return len(x.Edges) > 0, ""
+		}
+		return false, path(v)
+	}
+	for _, fn := range c.ModuleFuncs(pkgReflect) {
+		if !c.decodeClosure()[fn] {
+			continue
+		}
+		for _, b := range fn.Blocks {
+			for _, ins := range b.Instrs {
+				bo, ok := ins.(*ssa.BinOp)
+				if !ok || bo.Op != token.QUO || !fromLen(bo.X) {
+					continue
+				}
+				ok2, why := divisorOK(bo.Y, 0)
+				s.check(ok2, fn.Name()+":count-divisor", c.InstrPos(bo), "remaining input divided by the minimal wire size of the element's wire type (table entries, bounded above)",
+					"the remaining input is divided by "+why+", not by the minWireSize entries of the element wire types: nothing bounds it by the smallest encoding of an element (a nil struct is a lone STOP, an older writer sends fewer fields), so a well-formed container can be refused")
+			}
+		}
+	}
 	for name, want := range map[string]int64{"fieldHeaderLen": thriftFieldHeader, "mapHeaderLen": thriftMapHeader, "listHeaderLen": thriftListHeader, "strHeaderLen": thriftStrHeader} {
 		got, ok := c.constOf(pkgReflect, name)
 		if !ok {
